@@ -530,7 +530,13 @@ func (r *Message) decode(decoder Decoder) (int, error) {
 		n, err = decoder.Decode(r.bufferUnmarshal, &r.msg)
 		if errors.Is(err, message.ErrOptionsTooSmall) {
 			// increase buffer size and try again
-			r.msg.Options = make(message.Options, 0, len(r.msg.Options)*2)
+			newCap := len(r.msg.Options) * 2
+			if newCap == 0 {
+				// doubling an empty options slice (e.g. after SetMessage(message.Message{}))
+				// would retry forever with capacity 0
+				newCap = 16
+			}
+			r.msg.Options = make(message.Options, 0, newCap)
 			continue
 		}
 		return n, err
